@@ -24,6 +24,13 @@ func watchTargets(c *mon.Ctx) (dir, file string) {
 	file = filepath.Join(c.WorkDir, "watch-file")
 	os.MkdirAll(dir, 0o755)
 	os.WriteFile(file, []byte("x"), 0o644)
+	// symbolic links: the kind of a watch follows what the path resolves to (stat, as auditctl does)
+	for name, target := range map[string]string{"link-to-dir": dir, "link-to-file": file, "dangling-link": filepath.Join(c.WorkDir, "no-such-target")} {
+		p := filepath.Join(c.WorkDir, name)
+		os.Remove(p)
+		os.Symlink(target, p)
+	}
+	os.MkdirAll(filepath.Join(dir, "sub"), 0o755)
 	return
 }
 
@@ -230,7 +237,9 @@ func c06Run(c *mon.Ctx) {
 		}
 	}
 	// (7) watches: file and directory with every permission subset
-	for _, target := range []struct{ p, kind string }{{file, "path"}, {dir, "dir"}, {"/nonexistent/verif", "path"}, {dir + "/../watch-dir/.", "dir"}} {
+	wd := filepath.Dir(dir)
+	for _, target := range []struct{ p, kind string }{{file, "path"}, {dir, "dir"}, {"/nonexistent/verif", "path"}, {dir + "/../watch-dir/.", "dir"},
+		{wd + "/link-to-dir", "dir"}, {wd + "/link-to-file", "path"}, {wd + "/dangling-link", "path"}, {wd + "/link-to-dir/sub", "dir"}, {wd + "/link-to-dir/", "dir"}} {
 		for m := 0; m < 16; m++ {
 			perms := ""
 			for i, l := range "rwxa" {
@@ -259,7 +268,7 @@ func c06Run(c *mon.Ctx) {
 func init() {
 	register(&mon.CheckSpec{
 		ID: "C06", Level: "exploration",
-		Rule: "cases = (1) grid: every list x action x every field name the library admits on that list x every operator the field class admits x V seeded boundary/random values (uids/gids at 0, 2^31-1, 2^31, 2^32-2, unset, -1; exit codes by number and errno name; msgtype by name and number; every perm subset; every filetype; arch names; a0-a3 decimal/hex/negative; string lengths 1-4096), (2) every inter-field comparison in both orders x {=,!=}, (3) every single syscall bit 0..2047, (4) 0..64 filters (65 must be rejected), (5) key-length limit, (6) string boundary lengths, (7) watches on an existing file, an existing directory and a missing path with every permission subset and 0-2 keys, (8) seeded random multi-filter rules with syscall sets by number and by name and 0-3 keys. Every request goes through Build from a Rule struct and (when its strings are shell-safe) through flags.Parse+Build from text; the bytes are decoded at the UAPI offsets by an independent little-endian decoder and compared with the request. distinct_nontrivial = distinct requests (by text).",
+		Rule: "cases = (1) grid: every list x action x every field name the library admits on that list x every operator the field class admits x V seeded boundary/random values (uids/gids at 0, 2^31-1, 2^31, 2^32-2, unset, -1; exit codes by number and errno name; msgtype by name and number; every perm subset; every filetype; arch names; a0-a3 decimal/hex/negative; string lengths 1-4096), (2) every inter-field comparison in both orders x {=,!=}, (3) every single syscall bit 0..2047, (4) 0..64 filters (65 must be rejected), (5) key-length limit, (6) string boundary lengths, (7) watches on an existing file, an existing directory, a missing path, symbolic links to a directory / to a file / dangling, and a directory reached through a link, with every permission subset and 0-2 keys, (8) seeded random multi-filter rules with syscall sets by number and by name and 0-3 keys. Every request goes through Build from a Rule struct and (when its strings are shell-safe) through flags.Parse+Build from text; the bytes are decoded at the UAPI offsets by an independent little-endian decoder and compared with the request. distinct_nontrivial = distinct requests (by text).",
 		Assumptions: []string{
 			"expected codes come from internal/uapi (hand-written from linux/audit.h, self-tested against /usr/include/linux/audit.h in setup)",
 			"expected values are computed by the harness's own parsers; syscall names resolve through an x/sys/unix spot table where available, otherwise through the published table",
